@@ -41,9 +41,15 @@ def all_paths(maxlen):
     return [(l, i, a) for l in LEADS for i in IDENTS for a in arglists]
 
 
+def ungroup(a):
+    # `__G<X>` = X inside an invisible group (a `$t:ty` fragment of macro_rules!): the same argument
+    import re
+    return re.sub(r'__G<(.*)>$', r'\1', a)
+
+
 def identity_of(p):
     lead, ident, args = p
-    return (lead, ident, tuple(a for a in (args or ()) if not is_binding(a)))
+    return (lead, ident, tuple(ungroup(a) for a in (args or ()) if not is_binding(a)))
 
 
 def stripped_text(p):
@@ -84,6 +90,17 @@ def run(tier, seed, replay=None):
             pairs += [(rng.choice(pool), rng.choice(pool)) for _ in range(50000)]
         for p, q in pairs:
             reqs.append('tb\t%s\t%s' % (path_text(*p), path_text(*q))); meta.append(('tb', p, q))
+        # arguments that reach the macro inside an invisible group (`$t:ty` of a macro_rules! invocation)
+        # denote the same key as the argument spelled in place
+        grouped = []
+        for (l, i, a) in pool:
+            multi = [k for k, x in enumerate(a or ()) if not is_binding(x) and x in ('Vec<T>', '[T; 2]', 'u8')]
+            if multi:
+                k = multi[0]
+                grouped.append(((l, i, a), (l, i, tuple(('__G<%s>' % x) if j == k else x for j, x in enumerate(a)))))
+        for p, pg in (grouped if tier != 'quick' else rng.sample(grouped, min(len(grouped), 120))):
+            reqs.append('tb\t%s\t%s' % (path_text(*p), path_text(*pg))); meta.append(('tb', p, pg))
+            reqs.append('tb\t%s\t%s' % (path_text(*pg), path_text(*p))); meta.append(('tb', pg, p))
         for p in pool:
             reqs.append('tokens_path\t%s' % stripped_text(p)); meta.append(('strip', p, None))
         # the identity where it is used: two blocks whose bounds denote the same key (same path,
